@@ -661,6 +661,33 @@ impl<'p> IntoIterator for &'p RawOpaquePool {
     }
 }
 
+#[cfg(folo_verif)]
+impl RawOpaquePool {
+    /// Verification hook: read-only view of the pool's bookkeeping.
+    #[must_use]
+    pub fn verif_probe(&self) -> crate::verif::PoolProbe {
+        let vacancy_bits = (0..self.slabs.len())
+            .map(|index| {
+                self.vacancy_tracker
+                    .verif_vacancy_bit(index)
+                    .expect("vacancy map covers every slab")
+            })
+            .collect();
+
+        crate::verif::PoolProbe {
+            length: self.length,
+            slab_capacity: self.slab_layout.capacity().get(),
+            slot_stride: self.slab_layout.slot_layout().size(),
+            slot_to_object_offset: self.slab_layout.slot_to_object_offset(),
+            object_size: self.slab_layout.object_layout().size(),
+            object_align: self.slab_layout.object_layout().align(),
+            next_vacancy: self.vacancy_tracker.next_vacancy(),
+            vacancy_bits,
+            slabs: self.slabs.iter().map(Slab::verif_probe).collect(),
+        }
+    }
+}
+
 #[cfg(test)]
 #[allow(
     clippy::indexing_slicing,
